@@ -27,8 +27,8 @@ Proved for all journals, valuation commodities and days:
 The induction over days that composes `C03_telescope` with the per-step truncation bound into
 `|W − Q·p| ≤ steps · 10⁻⁸` is `C03_mtm_bound` / `C03_mtm_bound_window` in `Properties/C03Bound.lean`, proved for a
 single-position valuation trace whose terms are shown to be the model's (`C03_adjustment_term`,
-`C03_booked_term`).  PARTIAL: the association-list bookkeeping that projects `Balance.valuateDay` onto one
-position is not mechanised.  The bound is additionally decided on every run:
+`C03_booked_term`).  `Properties/C03Bridge.lean` projects `Balance.run` onto one position and proves the bound for the
+pipeline model itself (`C03_run_mtm_bound`).  The bound is additionally decided on every run:
 the monitor `shown_equals_mark_to_market` evaluates `Spec.mtm` exactly (in Lean) and compares it with every
 A/L cell of the REAL report.  The literal reading of the property (absolute mark-to-market) fails whenever a
 position exists before the window start (`--from`): the report shows the value change inside the window.
